@@ -53,7 +53,7 @@ def b01 (b : Bool) : String := if b then "1" else "0"
 
 def showSt (st : Client.St) : String :=
   let tr := if st.trace.isEmpty then "." else " ".intercalate (st.trace.map showEv)
-  s!"{tr} | closing={b01 st.closing} shutdown={b01 st.shutdown} errors={st.errors} draws={st.di} now={st.now}"
+  s!"{tr} | closing={b01 st.closing} shutdown={b01 st.shutdown} errors={st.errors} draws={st.di} now={st.now} sw={"".intercalate (st.sw.map b01)}"
 
 def handle (args : List String) : String :=
   match args with
